@@ -1,6 +1,8 @@
 SPECIFICATION Spec
-CONSTANTS MaxLen = 5
+CONSTANTS MaxLen = 4
+ MaxG = 2
  Emit = FALSE
  Broken = FALSE
+ ParamFirst = TRUE
 INVARIANT ParsesBack
 CHECK_DEADLOCK FALSE
